@@ -367,6 +367,8 @@ def pytree_stream(ctx, n_cases, present):
             t = g.pd(n, 2, cplx) if pd else g.ns(n, 2, cplx)
         if not leaves_ok(t, 1e3) or has_graded(t) or "'g': True" in str(t):
             continue
+        if "Sparse" in T.kinds_of(t):
+            continue   # Sparse keeps a static CSR copy of its data leaf (recorded C18 finding): a rebuilt Sparse multiplies with the old values
         route = r.choice(["unflatten", "unflatten", "to+unflatten", "PSD+unflatten", "unflatten+PSD", "same"])
         c = r.choice([4.0, 2.0, 9.0, 3.0])
         row = dict(n=n, pd=pd, route=route, c=c, kind=t["k"])
